@@ -104,6 +104,7 @@ fn one_history(run: &Run, case: u64) {
     let mut p = GenParams::small(block, cap);
     p.target_entries = 5 + rng.below(10) as usize;
     p.max_plain_size = 8192;
+    p.band_numbers_to_99998 = true;
     let mut w = World::new("c02", &mut rng, p, run.seed ^ case);
     if case % 25 == 3 {
         // scale: hundreds of entries and blocks, long names, deep nesting
